@@ -87,6 +87,30 @@ def numpy_to_blackbird(A, var_name):
     return script
 
 
+def _format_value(v):
+    """Formats a Python or NumPy value as a Blackbird literal.
+
+    Lists are formatted element by element, since the ``repr`` of a NumPy
+    scalar or a string inside a list is not valid Blackbird.
+
+    Args:
+        v (Union[list, str, complex, float, int, bool]): the value
+
+    Returns:
+        str: the Blackbird representation of the value
+    """
+    if isinstance(v, (list, tuple)):
+        return "[{}]".format(", ".join(_format_value(i) for i in v))
+
+    if isinstance(v, str):
+        return '"{}"'.format(v)
+
+    if isinstance(v, complex):
+        return "{}{}{}j".format(v.real, "+-"[int(v.imag < 0)], np.abs(v.imag))
+
+    return "{}".format(v)
+
+
 class BlackbirdProgram:
     """Python representation of a Blackbird program."""
 
@@ -333,10 +357,7 @@ class BlackbirdProgram:
                     # the expected syntax
                     option_strings = []
                     for k, v in data["options"].items():
-                        if not isinstance(v, str):
-                            option_strings.append("{}={}".format(k, v))
-                        else:
-                            option_strings.append('{}="{}"'.format(k, v))
+                        option_strings.append("{}={}".format(k, _format_value(v)))
 
                     options = " ({})".format(", ".join(option_strings))
 
@@ -370,7 +391,7 @@ class BlackbirdProgram:
             if len(op["modes"]) == 1:
                 modes = op["modes"][0]
             else:
-                modes = op["modes"]
+                modes = "[{}]".format(", ".join(str(m) for m in op["modes"]))
 
             # check if the operation has any arguments
             if "args" in op:
@@ -450,7 +471,7 @@ class BlackbirdProgram:
                         )
 
                     else:
-                        kwargs.append("{}={}".format(k, v))
+                        kwargs.append("{}={}".format(k, _format_value(v)))
 
                 if args and kwargs:
                     arguments = "({}, {})".format(", ".join(args), ", ".join(kwargs))
